@@ -153,6 +153,7 @@ def _parse_datetime_scenarios(ctx):
         "2023:05:06 00:00:00": {1: "2023", 2: ":", 3: "05", 4: ":", 5: "06", 6: "00", 7: "00", 8: "00"},
         "2023-05-06 25": {1: "2023", 2: "-", 3: "05", 4: "-", 5: "06", 6: "25"},
         "2023-12-31": None, "2023-04-30 7": None, "2023-10-31 23:59": None, "1999-1-9": None,
+        "2024-02-29": None, "2024:02:29 12:34": None,
         "last friday": None, "1 hour ago": None, "x": None,
     }
     # the capture groups are those of the DATE_REGEX literal of the analysed tree, matched on the scenario text (the literal
@@ -264,6 +265,8 @@ def r2(ctx):
         "2023:05:06 00:00:00": ((d, 0, 0, 0), (d, 0, 0, 0)), "2023-05-06 25": "error",
         "2023-12-31": (((2023, 12, 31), 0, 0, 0), ((2023, 12, 31), 23, 59, 59)), "2023-04-30 7": (((2023, 4, 30), 7, 0, 0), ((2023, 4, 30), 7, 59, 59)),
         "2023-10-31 23:59": (((2023, 10, 31), 23, 59, 0), ((2023, 10, 31), 23, 59, 59)), "1999-1-9": (((1999, 1, 9), 0, 0, 0), ((1999, 1, 9), 23, 59, 59)),
+        # a leap day is a date like any other
+        "2024-02-29": (((2024, 2, 29), 0, 0, 0), ((2024, 2, 29), 23, 59, 59)), "2024:02:29 12:34": (((2024, 2, 29), 12, 34, 0), ((2024, 2, 29), 12, 34, 59)),
         "last friday": (("friday", 0, 0, 0), ("friday", 23, 59, 59)), "1 hour ago": (("today+0", 11, 30, 45), ("today+0", 11, 30, 45)), "x": "error",
     }
     n = 0
@@ -277,7 +280,7 @@ def r2(ctx):
                                                                                     ("invalid" if w == "error" else "with_%s" % ["day", "hour", "minute", "second"][min(3, len(text.split(" ")[-1].split(":")) if " " in text else 0)]))
             ctx.violation("interval/%s/%s" % (kind, text.replace(" ", "_")), ctx.where(PARSE_DATETIME),
                           "the literal `%s` denotes %s, expected %s" % (text, got, w))
-    ctx.covered("time interval of date literals: parse_datetime evaluated on 13 literal shapes", n, distinct_keys=list(want), exhaustive=True)
+    ctx.covered("time interval of date literals: parse_datetime evaluated on 19 literals (0..3 time components, both separators, leap day, day words, offsets, natural language, invalid)", n, distinct_keys=list(want), exhaustive=True)
 
 
 def r3(ctx):
